@@ -210,6 +210,14 @@ def c04_e2e_lines(r, n):
             else:
                 es.append((rec, "a", r.choice([1, A // 2 or 1, A, A - 1 or 1, A + 1]) if r.chance(1, 2) else r.range(1, max(1, A))))
         cases.append((A, es))
+    # any valid address is a recipient: module accounts (blocked for ordinary sends or not), the orbiter's own, the dust collector
+    import hashlib
+    from proto import b32 as _b32
+    for name in ["orbiter/dust_collector", "bonded_tokens_pool", "not_bonded_tokens_pool", "fee_collector", "transfer", "cctp", "fiat-tokenfactory", "warp",
+                 "hyperlane", "gov", "distribution", "mint", "orbiter", "upgrade", "authority"]:
+        m = _b32(hashlib.sha256(name.encode()).digest()[:20])
+        cases.append((10 ** 6, [(m, "b", 100)]))
+        cases.append((10 ** 6, [(good, "a", 5), (m, "a", 7)]))
     for A, es in cases:
         lines.append(orb_pkt("recv", A, int_fwd(dest), [act(es)], denom=r.choice(["uusdc", "uother"])))
     # a computation that fails half way (overflow of the running total after valid entries) leaves nothing behind for the next ones
@@ -1284,6 +1292,34 @@ def c05_lines(r, toks, n):
     for mint in (b"\x01", b"\x07" * 20, b"\x09" * 31, b"\x0a" * 33, bytes(32), bytes(31) + b"\x01", bytes(20)):
         for op in ("recvh", "recv"):
             lines.append(orb_pkt(op, 10 ** 6, cctp_fwd(domain=0, mint=mint, caller=r.choice([None, r.bytes(32)]))))
+    # the same for the Hyperlane addresses: token, recipient and hook of every length (short, exact, one more, a valid value
+    # followed by more bytes, textual "0x…" forms): only exact ones are used, and the request carries all of them
+    hook32 = b"\x5a" * 32
+    shapes = lambda v: [v[:1], v[:20], v[:31], v, v + b"\x00", v + b"\x01" * 32, bytes(12) + v[:20], bytes(32) + v[:20], ("0x" + v.hex()).encode(), ("0x" + v.hex()).encode()[:32], b""]
+    for op in ("recvh", "recv"):
+        for t_ in shapes(tok):
+            lines.append(orb_pkt(op, 10 ** 6, hyp_fwd(t_, domain=1, recipient=r.bytes(32)), denom=tdenom))
+        for rc_ in shapes(b"\x21" * 12 + addr(3)):
+            lines.append(orb_pkt(op, 10 ** 6, hyp_fwd(tok, domain=1, recipient=rc_), denom=tdenom))
+        for hk_ in shapes(hook32) + shapes(bytes(32)):
+            lines.append(orb_pkt(op, 10 ** 6, hyp_fwd(tok, domain=1, recipient=r.bytes(32), hook=hk_), denom=tdenom))
+    # hooks the payload names itself: hyperlane-cosmos resolves them by type (bytes 20..24) and number (last eight bytes) only —
+    # the no-op hook of the set-up, gas paymasters created earlier (whatever the mailbox default is now), and ones that do not exist
+    def hook_id(ty, n_, prefix=b"router_post_dispatch"):
+        return prefix.ljust(20, b"\x00")[:20] + ty.to_bytes(4, "big") + n_.to_bytes(8, "big")
+    lines.append("env hyp igp %s 1 10000000000 1 50000" % hx("uusdc"))
+    lines.append("env hyp igp %s 1 10000000000 2 1000" % hx("uusdc"))
+    lines.append("env hyp igp %s 2 10000000000 1 50000" % hx("uusdc"))
+    lines.append("env hyp noop")
+    for ty in (0, 1, 3, 4, 5, 2 ** 32 - 1):
+        for n_ in (0, 1, 2, 3, 4, 2 ** 64 - 1):
+            for pre in (b"router_post_dispatch", b"", b"\xff" * 20):
+                if pre != b"router_post_dispatch" and (ty not in (0, 4) or n_ > 2):
+                    continue
+                for op in ("recvh", "recv"):
+                    lines.append(orb_pkt(op, 10 ** 6, hyp_fwd(tok, domain=1, recipient=r.bytes(32), hook=hook_id(ty, n_, pre), gas=100000, fee=("uusdc", 10 ** 6)), denom=tdenom))
+    lines.append(orb_pkt("recv", 10 ** 6, hyp_fwd(tok, domain=1, recipient=r.bytes(32), hook=hook_id(4, 2), gas=100000, fee=("uusdc", 5)), denom=tdenom))
+    lines.append(orb_pkt("recv", 10 ** 6, hyp_fwd(tok, domain=1, recipient=r.bytes(32), hook=hook_id(4, 3), gas=100000, fee=("uusdc", 10 ** 6)), denom=tdenom))
     # every (protocol id, attribute type) combination, symbolic and numeric ids, out of range numbers
     attr_sets = [cctp_fwd(domain=0)["attributes"], int_fwd(U[1])["attributes"], hyp_fwd(tok, domain=1)["attributes"]]
     for pid in PROTO_NAMES + ["PROTOCOL_UNSUPPORTED", -1, 0, 1, 2, 3, 4, 5, 6, 7, 2 ** 31 - 1]:
@@ -1525,6 +1561,15 @@ def c07_lines(r, n):
         for m in [base.replace("\"receiver\"", "\"Receiver\""), base.replace("\"receiver\"", "\"RECEIVER\""), base.replace("\"memo\"", "\"Memo\""),
                   base[:-1] + ",\"fee\":\"1\"}", base[:-1] + ",\"receiver\":\"" + U[1] + "\"}", "[" + base + "]", base + base]:
             lines.append(pkt_line("withoutmw", m))
+    # sizes: memos and whole packets far beyond anything the orbiter itself would take, escaped and not
+    for size in (4000, 20000, 26676, 32768, 32769, 50000, 140000):
+        nested = _json.dumps({"wasm": {"contract": "x" * 40, "msg": {"k": "\"" * (size // 4), "p": "y" * (size // 2)}}})[:size]
+        for rc in (U[0], foreign[0], ""):
+            lines.append(pkt_line("withoutmw", ftpd("uatom", 5, rc, nested)))
+            lines.append(pkt_line("withoutmw", ftpd("transfer/channel-7/uusdc", 5, rc, "z" * size)))
+        lines.append(pkt_line("withoutmw", b"\x00" * size))
+        lines.append(pkt_line("withoutmw", ftpd("uatom", 5, "r" * size, "")))
+        lines.append(pkt_line("withoutmw", ftpd("d" * size, 5, U[0], "")))
     # all valid channel / port identifiers on the source side; channel-N on the destination side
     for sp, sc in [("transfer", "channel-0"), ("wasm.abc", "channel-99999"), ("ics20", "chan-free-form"), ("a.b_c+d-e#[f]<g>", "channel-18446744073709551615")]:
         for dc in ["channel-0", "channel-1", "channel-18446744073709551615", "channel-007"]:
@@ -1801,6 +1846,32 @@ def pause_targeted(toks):
               "query PausedActions", "query IsActionPaused " + hx("ACTION_SWAP"), "query IsActionPaused " + hx("ACTION_FEE"), "export", "reimport", "export", "query PausedActions",
               orb_pkt("recv", 10 ** 6, int_fwd(U[1]), fee), orb_pkt("recv", 10 ** 6, int_fwd(U[1]), None),
               msg_line("UnpauseAction", AUTHORITY, hx("ACTION_SWAP")), msg_line("UnpauseAction", AUTHORITY, hx("ACTION_FEE")), "query PausedActions"]
+    # every subset of the actions, reached in both orders: each single-item query answers for its own item only
+    def ask_all():
+        out_ = ["query PausedActions", "query PausedProtocols"]
+        out_ += ["query IsActionPaused " + hx(a_) for a_ in ACTION_NAMES + ["ACTION_UNSUPPORTED"]]
+        out_ += ["query IsProtocolPaused " + hx(p_) for p_ in PROTO_NAMES + ["PROTOCOL_UNSUPPORTED"]]
+        return out_
+    for first, second in (("ACTION_FEE", "ACTION_SWAP"), ("ACTION_SWAP", "ACTION_FEE")):
+        lines += ask_all()
+        lines.append(msg_line("PauseAction", AUTHORITY, hx(first)))
+        lines += ask_all()
+        lines.append(msg_line("PauseAction", AUTHORITY, hx(second)))
+        lines += ask_all()
+        lines.append(msg_line("UnpauseAction", AUTHORITY, hx(first)))
+        lines += ask_all()
+        lines.append(orb_pkt("recv", 10 ** 6, int_fwd(U[1]), fee))
+        lines.append(msg_line("UnpauseAction", AUTHORITY, hx(second)))
+    # …and the same for the protocols, and for neighbours of a paused destination
+    for p_ in PROTO_NAMES:
+        lines.append(msg_line("PauseProtocol", AUTHORITY, hx(p_)))
+        lines += ask_all()
+        lines.append(msg_line("UnpauseProtocol", AUTHORITY, hx(p_)))
+    lines.append(msg_line("PauseCrossChains", AUTHORITY, hx("PROTOCOL_CCTP"), hx("5"), hx("50")))
+    for p_, c_ in (("PROTOCOL_CCTP", "4"), ("PROTOCOL_CCTP", "5"), ("PROTOCOL_CCTP", "6"), ("PROTOCOL_CCTP", "50"), ("PROTOCOL_CCTP", "500"), ("PROTOCOL_CCTP", "0"),
+                   ("PROTOCOL_HYPERLANE", "5"), ("PROTOCOL_HYPERLANE", "50"), ("PROTOCOL_INTERNAL", "noble"), ("PROTOCOL_IBC", "channel-5")):
+        lines.append("query IsCrossChainPaused %s %s" % (hx(p_), hx(c_)))
+    lines.append(msg_line("UnpauseCrossChains", AUTHORITY, hx("PROTOCOL_CCTP"), hx("5"), hx("50")))
     # actions
     for a in ("ACTION_FEE", "ACTION_SWAP"):
         lines.append(msg_line("PauseAction", AUTHORITY, hx(a)))
@@ -1956,6 +2027,19 @@ def c10_lines(r, n):
         for b in bs:
             for sg in signers:
                 lines.append(msg_line(rpc, sg, *b))
+    # holders of roles in the bridge modules, and the module accounts themselves, are not the authority either
+    roles = ["cctp.owner", "cctp.pauser", "cctp.attestermanager", "cctp.tokencontroller", "ftf.owner", "ftf.pauser", "ftf.blacklister", "ftf.masterminter"]
+    holders = []
+    for i, role in enumerate(roles):
+        who = b32(addr(40 + i))
+        holders.append(who)
+        lines.append("env role %s %s" % (role, hx(who)))
+    mods = [b32(bytes.fromhex(v)) for k, v in sorted(module_addrs().items())]
+    for rpc, bs in bodies.items():
+        for b in bs:
+            for sg in holders + mods:
+                lines.append(msg_line(rpc, sg, *b))
+    signers = signers + holders + mods
     # the one RPC that reaches a bridge, through the recording message server: a foreign signer's request never gets there
     def be(n_, k_):
         return n_.to_bytes(k_, "big")
